@@ -17,3 +17,10 @@ where
 {
     serde_bencode::from_bytes(bytes)
 }
+
+// Verification harnesses (compiled only by `cargo kani`; inert otherwise).
+#[cfg(kani)]
+#[allow(dead_code, unused_imports)]
+mod verif {
+    include!(concat!(env!("BTDHT_VERIF"), "/harness/bencode.rs"));
+}
